@@ -77,7 +77,7 @@ EXTRA = {
  "C07": " Calendar sweep: every calendar day the timestamp width reaches from each epoch (first millisecond, the millisecond before, a day-dependent time of day) x 2 (node,step) corners through the same round trips.",
  "C08": " Iterator counts at the ends of the int range (MaxInt32, MaxInt-3..MaxInt, MinInt, MinInt+1, -2) at pos 0 and 3.",
  "C11": " A second alphabet of 24 calls whose sizes straddle the growth machinery (1..1010-byte writes, Next 1..1000, ReadFrom with chunkings around MinRead=512, Grow 1/512/600) from zero and 600/1024/1028-byte sized buffers, depth 4 quick / 5 thorough.",
- "C17": " Constructor parameters: the four sharded LRU constructors x 1..211 shards x capacity 1,2,shards-1..shards+1,2*shards+1: every key of a family reaches an existing shard, is readable right after Set and gone after Delete.",
+ "C17": " Constructor parameters: the four sharded LRU constructors x 1..211 shards x capacity 1,2,shards-1..shards+1,2*shards+1: every key of a family reaches an existing shard, is readable right after Set and gone after Delete; the shard-count option does not leak between ReMap instances (all ordered triples of default/2/3/211).",
  "C20": " Base64Bytes.Scan of every text up to length 5 quick / 6 thorough over payload / padding / url-alphabet / blank / CR / LF characters and of line-wrapped encodings of 0..130 bytes, as string and as []byte, against a bitwise reference decoder.",
  "C01": " Fine-mode variants (schedule points at every statement boundary of the semaphore code). Constructor family: all ordered pairs of the three constructors x ratio default/1/2/12, each container's observed reader bound checked after the other was built (options must not leak between containers).",
  "C02": " Many-holder programs (counter width), 13- and 21-key multi-key lists with several keys per shard against short lists on the same shards, fine-mode variants.",
@@ -87,9 +87,9 @@ EXTRA = {
  "C09": " Alias probes (decoded sets must not share memory with the input), all 3-byte strings; round trip of every run of 1..65 consecutive indices at every start and of stride-2/3 combs.",
  "C12": " Extreme priorities (min/max int) in the priority queue.",
  "C13": " Fine-mode variants (schedule points at every statement boundary of the queue code).",
- "C14": " Stop before Run; one CallCtx object reused on a 2-lane and a 3-lane MultiLine (lane = IndexOf(hash) of the executor it was given to).",
- "C15": " An LRU configuration in which every second value (cache.Value, Size 3) is bigger than the whole LRU.",
- "C16": " Injected Close / SetReadDeadline / SetWriteDeadline errors; Send and Close issued before Start; timed scenarios: a connection that honours read/write deadlines on a virtual discrete-event clock (silent peer, peer that does not read, heartbeats while a write is pending): a pending read/write expires at the deadline its own loop armed.",
+ "C14": " Stop before Run; one CallCtx object reused on a 2-lane and a 3-lane MultiLine (lane = IndexOf(hash) of the executor it was given to); executor options do not leak (all ordered triples of option sets through pipe.GetOption, a default MultiLine after a configured one).",
+ "C15": " An LRU configuration in which every second value (cache.Value, Size 3) is bigger than the whole LRU; a configuration in which every second value written is the untyped nil; worker-count options do not leak between groups (all ordered pairs of default/2/3 workers).",
+ "C16": " Injected Close / SetReadDeadline / SetWriteDeadline errors; Send and Close issued before Start; timed scenarios: a connection that honours read/write deadlines on a virtual discrete-event clock (silent peer, peer that does not read, heartbeats while a write is pending): a pending read/write expires at the deadline its own loop armed; manager timeouts do not leak between managers (all ordered pairs of three configurations, read off the armed deadlines).",
  "C18": " Special error values (gorm.ErrInvalidTransaction, sql.ErrTxDone, driver.ErrBadConn, context errors) as step results; nested Transact on the step's own handle (result ignored / returned) and Transact on a handle the caller already began a transaction on: no step, an error, no driver event, the caller's transaction still finishable.",
  "C19": " Long single-pair attempt histories up to the attempt/send limits + 2.",
 }
